@@ -105,6 +105,9 @@ func init() {
 		"path/filepath.ToSlash": func(in *Interp, _ *frame, a []Value) (Value, bool) {
 			return a[0], true
 		},
+		"strconv.FormatBool": func(in *Interp, _ *frame, a []Value) (Value, bool) {
+			return in.iteStr(a[0].(*Term), concStr(in.tf, "true"), concStr(in.tf, "false")), true
+		},
 		"strconv.Itoa": func(in *Interp, _ *frame, a []Value) (Value, bool) {
 			return concStr(in.tf, strconv.Itoa(int(in.concInt(a[0])))), true
 		},
@@ -123,6 +126,18 @@ func init() {
 			return in.errorfModel(a[0].(*Str), a[1].(SliceV)), true
 		},
 		"fmt.Sprintf": func(in *Interp, _ *frame, a []Value) (Value, bool) {
+			if f := a[0].(*Str); f.IsConc() && f.Conc() == "%x" && a[1].(SliceV).Len == 1 {
+				arg := a[1].(SliceV).B.E[a[1].(SliceV).Off]
+				if iv, ok := arg.(Iface); ok {
+					arg = iv.V
+				}
+				switch x := arg.(type) {
+				case SliceV:
+					return in.hexEncode(x), true
+				case *ArrayV:
+					return in.hexEncode(SliceV{B: &Backing{E: x.E}, Len: len(x.E), Cap: len(x.E)}), true
+				}
+			}
 			s, ok := in.sprintfModel(a[0].(*Str), a[1].(SliceV))
 			if !ok {
 				in.unsupported("fmt.Sprintf with unsupported arguments")
@@ -162,8 +177,27 @@ func init() {
 			return Iface{T: in.W.emptyStructT, V: Opaque{Kind: "context", Obj: "bg"}}, true
 		},
 		"encoding/hex.EncodeToString": func(in *Interp, _ *frame, a []Value) (Value, bool) {
+			return in.hexEncode(a[0].(SliceV)), true
+		},
+		"bytes.ReplaceAll": func(in *Interp, _ *frame, a []Value) (Value, bool) {
 			s := in.bytesToStr(a[0].(SliceV))
-			return in.mapConc(s, "hex.EncodeToString", func(x string) string { return hex.EncodeToString([]byte(x)) }), true
+			o, n := in.bytesToStr(a[1].(SliceV)), in.bytesToStr(a[2].(SliceV))
+			if o.IsConc() && o.Conc() == "" {
+				in.unsupported("bytes.ReplaceAll with empty old")
+			}
+			return in.strToBytes(in.replacerReplace([]*Str{o, n}, s)), true
+		},
+		"crypto/sha256.New":    func(in *Interp, _ *frame, a []Value) (Value, bool) { return in.newHash("sha256"), true },
+		"crypto/sha512.New":    func(in *Interp, _ *frame, a []Value) (Value, bool) { return in.newHash("sha512"), true },
+		"crypto/sha512.New384": func(in *Interp, _ *frame, a []Value) (Value, bool) { return in.newHash("sha384"), true },
+		"crypto/sha256.Sum256": func(in *Interp, _ *frame, a []Value) (Value, bool) {
+			return &ArrayV{E: in.hashToken("sha256", a[0].(SliceV), 32)}, true
+		},
+		"crypto/sha512.Sum512": func(in *Interp, _ *frame, a []Value) (Value, bool) {
+			return &ArrayV{E: in.hashToken("sha512", a[0].(SliceV), 64)}, true
+		},
+		"crypto/sha512.Sum384": func(in *Interp, _ *frame, a []Value) (Value, bool) {
+			return &ArrayV{E: in.hashToken("sha384", a[0].(SliceV), 48)}, true
 		},
 		"encoding/hex.DecodeString": func(in *Interp, _ *frame, a []Value) (Value, bool) {
 			s := in.forceConc(a[0].(*Str), "hex.DecodeString")
@@ -355,6 +389,48 @@ func (in *Interp) edToken(pub, msg SliceV) SliceV {
 		bs = append(bs, msg.B.E[msg.Off+i])
 	}
 	return SliceV{B: &Backing{E: bs}, Len: len(bs), Cap: len(bs)}
+}
+
+// hexEncode works on symbolic bytes too.
+func (in *Interp) hexEncode(b SliceV) *Str {
+	tf := in.tf
+	out := make([]*Term, 0, 2*b.Len)
+	nib := func(n *Term) *Term {
+		return tf.Ite(tf.Cmp(OpUlt, n, tf.BV(8, 10)), tf.Bin(OpAdd, n, tf.BV(8, '0')), tf.Bin(OpAdd, n, tf.BV(8, 'a'-10)))
+	}
+	for i := 0; i < b.Len; i++ {
+		t := b.B.E[b.Off+i].(IntV).T
+		out = append(out, nib(tf.Bin(OpLshr, t, tf.BV(8, 4))), nib(tf.Bin(OpBAnd, t, tf.BV(8, 15))))
+	}
+	return &Str{Alts: []SAlt{mkAlt(tf.T, out)}}
+}
+
+type hashState struct {
+	alg  string
+	data []Value
+}
+
+func (in *Interp) newHash(alg string) Value {
+	return Iface{T: in.W.emptyStructT, V: Opaque{Kind: "hash", Obj: &hashState{alg: alg}}}
+}
+
+// hashToken: ideal hash — an injective, algorithm-tagged encoding of the data
+// ("digest" = tag byte, length, data, zero padding; data longer than the
+// digest is not supported).
+func (in *Interp) hashToken(alg string, data SliceV, size int) []Value {
+	tf := in.tf
+	if data.Len+2 > size {
+		in.unsupported("ideal hash model: data longer than %d bytes", size-2)
+	}
+	tag := map[string]uint64{"sha256": 0xa1, "sha512": 0xa2, "sha384": 0xa3}[alg]
+	out := []Value{IntV{tf.BV(8, tag)}, IntV{tf.BV(8, uint64(data.Len))}}
+	for i := 0; i < data.Len; i++ {
+		out = append(out, data.B.E[data.Off+i])
+	}
+	for len(out) < size {
+		out = append(out, IntV{tf.BV(8, 0)})
+	}
+	return out
 }
 
 func (in *Interp) curveModel(bits int) Value {
@@ -905,6 +981,31 @@ func (in *Interp) opaqueMethod(fr *frame, recv Iface, method string, args []Valu
 				}
 			}
 			return sf
+		}
+	case "hash":
+		hs := o.Obj.(*hashState)
+		switch method {
+		case "Write":
+			d := args[0].(SliceV)
+			for i := 0; i < d.Len; i++ {
+				hs.data = append(hs.data, d.B.E[d.Off+i])
+			}
+			return Tuple{IntV{in.tf.BV(64, uint64(d.Len))}, Iface{}}
+		case "Sum":
+			size := map[string]int{"sha256": 32, "sha512": 64, "sha384": 48}[hs.alg]
+			tok := in.hashToken(hs.alg, SliceV{B: &Backing{E: hs.data}, Len: len(hs.data), Cap: len(hs.data)}, size)
+			pre := args[0].(SliceV)
+			var all []Value
+			for i := 0; i < pre.Len; i++ {
+				all = append(all, pre.B.E[pre.Off+i])
+			}
+			all = append(all, tok...)
+			return SliceV{B: &Backing{E: all}, Len: len(all), Cap: len(all)}
+		case "Reset":
+			hs.data = nil
+			return nil
+		case "Size":
+			return IntV{in.tf.BV(64, uint64(map[string]int{"sha256": 32, "sha512": 64, "sha384": 48}[hs.alg]))}
 		}
 	case "curve":
 		if method == "Params" {
